@@ -5,7 +5,8 @@ E1 over programs x inputs: xpaths are generated from the grammar as step structu
 ASTNode}), rendered to text, and evaluated against (a) six shaped trees including a 13-element tuple, a child stored
 in a field literally named `child`, nested parents and a subclass hierarchy and (b) every tree with <= N nodes.
 For every (xpath, tree): set(findall(root)) == {n | match(root, n)} == reference DP over ancestor chains; findall
-yields no node twice; find is the first of findall; the node.find / node.findall front-ends agree.
+yields no node twice; find is the first of findall; the node.find / node.findall front-ends agree; searches with one
+(cached, shared) xpath object advanced alternately or nested give the results of the same searches run in sequence.
 """
 from __future__ import annotations
 
@@ -133,7 +134,7 @@ def is_instance(cname, cls):
     return cls == "ASTNode" or U.isinstance(cname, cls)
 
 
-def check(rec: Rec, tc: TreeCase, steps, text, front_ends=False):
+def check(rec: Rec, tc: TreeCase, steps, text, front_ends=False, other=None):
     rec.count("states")
     case = {"xpath": text, "tree": tc.d}
     rec.sample(case)
@@ -182,6 +183,34 @@ def check(rec: Rec, tc: TreeCase, steps, text, front_ends=False):
             rec.violation("C07|front-end", case, "node.find / node.findall disagree with ASTXpath.findall")
         if xp.match(tc.root, tc.root) is not xp.match(tc.tree, tc.root):
             rec.violation("C07|front-end", case, "match(root, n) differs from match(Tree(root), n)")
+        # re-entrancy: compiled xpaths are cached and shared, so two searches with one xpath object may be in progress at
+        # once - on the same tree, on another tree, or nested in the loop body of the first
+        rec.count("transitions"); rec.count("traces"); rec.count("evaluations")
+        abandoned = xp.findall(tc.root)
+        next(abandoned, None)
+        del abandoned
+        oroot = tc.root if other is None else other.root
+        oexp = [id(n) for n in xp.findall(oroot)]
+        g1, g2, g3 = xp.findall(tc.root), ASTXpath(text).findall(tc.root), xp.findall(oroot)
+        outs = [[], [], []]
+        live = [(g1, outs[0]), (g2, outs[1]), (g3, outs[2])]
+        while live:
+            for g, o in list(live):
+                x = next(g, None)
+                if x is None:
+                    live.remove((g, o))
+                else:
+                    o.append(id(x))
+        if outs[0] != found_ids or outs[1] != found_ids or outs[2] != oexp:
+            rec.violation("C07|re-entrancy", case, "searches advanced alternately (same xpath object; same and another tree) differ from the same searches run one after the other")
+        nested = []
+        for n in xp.findall(tc.root):
+            nested.append(id(n))
+            if xp.match(tc.tree, n) is not True or [id(x) for x in xp.findall(oroot)] != oexp:
+                rec.violation("C07|re-entrancy", case, "match / findall inside the loop body of a findall with the same xpath object give other results")
+                break
+        if nested != found_ids:
+            rec.violation("C07|re-entrancy", case, "findall changes its results when the same xpath is used inside its loop body")
 
 
 def _kind(steps, extra, missing):
@@ -247,7 +276,7 @@ def run_shard(cfg):
                 rec.rank = idx
                 rec.count("xpaths")
                 for ti, tc in enumerate(tcs):
-                    check(rec, tc, steps, text, front_ends=(vi == 0 and ti < 3))
+                    check(rec, tc, steps, text, front_ends=(vi == 0 and ti < 3), other=tcs[(ti + 1) % len(tcs)])
         rec.outcome(f"family:{label}")
     rec.bound = {"max_steps": 4 if cfg["tier"] == "thorough" else 3, "full_alphabet_steps": 2}
     return rec.result()
